@@ -46,7 +46,7 @@ from __future__ import annotations
 from lib import c14_placements as P
 
 PROPERTY = "C14"
-LEVEL = "fault_enumeration"
+LEVEL = "exploration"
 RULE = (
     "all chains (outermost first) over the 13 constructs "
     + ",".join(P.CONSTRUCTS)
